@@ -24,6 +24,7 @@ type Env struct {
 	inOld   bool
 	now     *State // the current state while evaluating inside old()
 	specFile string // contract file of the clause being evaluated (for type names)
+	visLoc, visHeap string // ghost visited set of the enclosing range-over-map loop
 }
 
 func (e *Env) clone() *Env {
@@ -110,6 +111,35 @@ func (f *frame) lookupVar(name string, at *ssa.BasicBlock, st *State) (Val, bool
 // lookupVarAt resolves a source-level variable at a program point: the start
 // of block at (before == nil) or just before instruction `before` of block at.
 func (f *frame) lookupVarAt(name string, at *ssa.BasicBlock, before ssa.Instruction, st *State) (Val, bool) {
+	// a source variable that lives in a memory cell (address taken / captured by
+	// a closure: `tN = new T (name)` or `local T (name)`): its current value is
+	// the content of the cell in the current state, not the value of some
+	// earlier load or store
+	{
+		var cell *ssa.Alloc
+		for _, b := range f.fn.Blocks {
+			if !(b == at || b.Dominates(at)) {
+				continue
+			}
+			for _, ins := range b.Instrs {
+				if b == at && before != nil && ins == before {
+					break
+				}
+				if a, ok := ins.(*ssa.Alloc); ok && a.Comment == name {
+					if b == at && before == nil {
+						continue
+					}
+					if _, done := f.vals[a]; done {
+						cell = a
+					}
+				}
+			}
+		}
+		if cell != nil {
+			t := cell.Type().Underlying().(*types.Pointer).Elem()
+			return Val{T: f.vc.loadVal(st, f.vals[cell].T, t, "true", false), Typ: t}, true
+		}
+	}
 	// search DebugRefs in dominating blocks, preferring the nearest dominator
 	// and the last reference in it.
 	var best ssa.Value
@@ -254,6 +284,15 @@ func (vc *VC) evalSpec(env *Env, e SExpr) Val {
 		v := vc.evalSpec(env, x.X)
 		return vc.specField(env, v, x.Name)
 	case *SIndex:
+		// element of an array that lives in memory (field of array type): load
+		// the one cell instead of materialising the whole array value
+		if aloc, at, ok := vc.specArrayLoc(env, x.X); ok {
+			i := vc.evalSpec(env, x.I)
+			el := App("Elem", aloc, i.T)
+			if _, isStruct := at.Elem().Underlying().(*types.Struct); !isStruct {
+				return Val{T: vc.loadVal(env.st, el, at.Elem(), "true", false), Typ: at.Elem()}
+			}
+		}
 		v := vc.evalSpec(env, x.X)
 		i := vc.evalSpec(env, x.I)
 		return vc.specIndex(env, v, i)
@@ -608,6 +647,13 @@ func (vc *VC) evalSpecCall(env *Env, x *SCall) Val {
 			return Val{T: vc.mapLen(env.st, v), Typ: intT}
 		}
 		return vc.specErr("len of %s", v.Typ)
+	case "visited":
+		// visited(k): key k has already been yielded by the map iteration of the
+		// loop whose invariant is being evaluated
+		if env.visLoc == "" {
+			return vc.specErr("visited(k) is only available in the invariants of a range-over-map loop")
+		}
+		return Val{T: App("select", App("select", vc.heapOf(env.st, env.visHeap), env.visLoc), arg(0).T), Typ: types.Typ[types.Bool]}
 	case "before":
 		// before(N, e): e evaluated in the state in which loop N (source-order
 		// ordinal) of the function under verification was entered; local names
@@ -1038,6 +1084,13 @@ func (f *frame) loopModPats(li *loopInfo, pre *State) []modPat {
 				}
 			}
 			switch x := ins.(type) {
+			case *ssa.Next:
+				if rg, isRange := x.Iter.(*ssa.Range); isRange && !x.IsString {
+					if _, isMap := rg.X.Type().Underlying().(*types.Map); isMap {
+						_, mp, _, _ := vc.mapHeaps(rg.X.Type())
+						pats = append(pats, modPat{sort: mp, base: f.visLocOf(rg)})
+					}
+				}
 			case *ssa.Store:
 				base, steps, relevant := addrPat(x.Addr)
 				if !relevant {
@@ -1232,7 +1285,7 @@ func (f *frame) scanCalleeWrites(callee *ssa.Function, all func(string), depth i
 // It returns "" unless every bound variable is covered.
 func autoPattern(body string, qvars []string) string {
 	found := map[string]string{}
-	for _, head := range []string{"(at_ ", "(str.at_ "} {
+	for _, head := range []string{"(at_ ", "(str.at_ ", "(Elem "} {
 		for i := 0; i+len(head) < len(body); i++ {
 			if !strings.HasPrefix(body[i:], head) {
 				continue
@@ -1320,4 +1373,43 @@ func (vc *VC) specPlace(env *Env, e SExpr) (string, types.Type, bool) {
 		}
 	}
 	return "", nil, false
+}
+
+// specArrayLoc: the memory location of an array-typed field p.f (p a pointer to
+// a struct, or a struct place).
+func (vc *VC) specArrayLoc(env *Env, e SExpr) (string, *types.Array, bool) {
+	x, ok := e.(*SField)
+	if !ok {
+		return "", nil, false
+	}
+	var base string
+	var stT types.Type
+	if loc, t, ok := vc.specPlace(env, x.X); ok {
+		base, stT = loc, t
+	} else {
+		if id, isId := x.X.(*SIdent); isId {
+			if _, bound := env.bound[id.Name]; !bound && env.lookup == nil && env.vars[id.Name].T == "" {
+				return "", nil, false
+			}
+		}
+		v := vc.evalSpec(env, x.X)
+		p, isP := v.Typ.Underlying().(*types.Pointer)
+		if !isP {
+			return "", nil, false
+		}
+		base, stT = v.T, p.Elem()
+	}
+	st, isS := stT.Underlying().(*types.Struct)
+	if !isS {
+		return "", nil, false
+	}
+	idx, ft := findField(st, x.Name)
+	if idx < 0 {
+		return "", nil, false
+	}
+	at, isA := ft.Underlying().(*types.Array)
+	if !isA {
+		return "", nil, false
+	}
+	return App("Fld", base, fmt.Sprint(vc.sorts.FieldID(stT, idx))), at, true
 }
